@@ -1691,7 +1691,13 @@ namespace link_layer {
             }
             else if ( this->handle_phy_request( opcode, size, pdu, write, *this, commit ) )
             {
-                // all phy PDU handled in handle_phy_reqest
+                // all phy PDU handled in handle_phy_reqest; a LL_PHY_UPDATE_IND that changes a PHY is
+                // deferred until its instant
+                if ( !defered_ll_control_pdu_.empty() && instant_passed( defered_conn_event_counter_ ) )
+                {
+                    disconnecting_reason_ = connection_instant_passed;
+                    result = ll_result::disconnect;
+                }
             }
             else if ( opcode != LL_UNKNOWN_RSP )
             {
